@@ -490,6 +490,18 @@ fn gen_json_string(r: &mut Rng) -> String {
 }
 
 fn gen_json_number(r: &mut Rng) -> JV {
+    if r.chance(1, 120) {
+        // number texts far longer than any value-derived spelling (zero padding is legal JSON)
+        let z = "0".repeat(r.range(300, 1200));
+        let s = match r.below(4) {
+            0 => format!("1.{z}"),
+            1 => format!("-2.5{z}e2"),
+            2 => format!("18446744073709551616.{z}"),
+            _ => format!("0.{z}1"),
+        };
+        let v = s.parse::<f64>().unwrap();
+        return JV::Num(s, CN::Float(v));
+    }
     match r.below(9) {
         0 => {
             let v: i64 = r.pick(&[0, 1, -1, 10, 255, i64::MAX, i64::MIN, i64::MAX - 1, 1_000_000]);
